@@ -19,6 +19,26 @@ ASSUMPTIONS = [
 ]
 
 
+def rundir(R):
+    """Private scratch directory of this process: several `bin/check C04|C13` may run at the same time (other builders
+    call C04 too), so nothing mutable is shared between runs. Removed at exit."""
+    if getattr(R, "_codec_rundir", None):
+        return R._codec_rundir
+    import atexit, shutil
+    d = os.path.join(R.work, "run-%d" % os.getpid())
+    shutil.rmtree(d, ignore_errors=True)
+    os.makedirs(d)
+    atexit.register(lambda: shutil.rmtree(d, ignore_errors=True))
+    # stale directories of killed runs (older than 2 hours)
+    import time
+    for n in os.listdir(R.work):
+        q = os.path.join(R.work, n)
+        if n.startswith("run-") and q != d and os.path.isdir(q) and time.time() - os.path.getmtime(q) > 7200:
+            shutil.rmtree(q, ignore_errors=True)
+    R._codec_rundir = d
+    return d
+
+
 def translate(R):
     """schemas from the tree -> GenSchemas.v (write if changed) + schemas.json for the harness. Returns pkgs or None."""
     pkgs, err = codecgen.schemas()
@@ -31,7 +51,7 @@ def translate(R):
         R.proof_problems.append("schema translation: " + str(e))
         return None
     changed = vlib.write_if_changed(os.path.join(vlib.COQ, "Codec", "GenSchemas.v"), text)
-    json.dump(pkgs, open(os.path.join(R.work, "schemas.json"), "w"))
+    json.dump(pkgs, open(os.path.join(rundir(R), "schemas.json"), "w"))
     nmodels = sum(len(p["models"]) for p in pkgs)
     ngen = sum(len(p["generated_encoders"]) for p in pkgs)
     R.coverage["translated"] = dict(packages=len(pkgs), models_from_definitions=nmodels, encoders_in_generated_sources=ngen,
@@ -50,9 +70,10 @@ def build(R, pkgs):
         return None
     # keep a private copy: another check of the family may rebuild work/Codec/ml concurrently
     import shutil
-    rexe = os.path.join(R.work, "runner")
-    shutil.copy(exe, rexe)
-    hexe = os.path.join(R.work, "h.test")
+    rexe = os.path.join(rundir(R), "runner")
+    with vlib.flock("ml-Codec"):
+        shutil.copy(exe, rexe)
+    hexe = os.path.join(rundir(R), "h.test")
     ok, log = codecgen.build_harness(pkgs, hexe)
     if not ok:
         R.proof_problems.append("Go harness for the generated codecs no longer builds against the tree: " + log[-600:])
@@ -63,9 +84,9 @@ def build(R, pkgs):
 
 def run_harness(R, hexe, test, out, env_extra, timeout=1200):
     env = vlib.goenv()
-    env.update(VERIF_SCHEMAS=os.path.join(R.work, "schemas.json"), VERIF_SEED=str(R.seed), VERIF_OUT=out)
+    env.update(VERIF_SCHEMAS=os.path.join(rundir(R), "schemas.json"), VERIF_SEED=str(R.seed), VERIF_OUT=out)
     env.update(env_extra)
-    rc, o = vlib.sh([hexe, "-test.run", "^" + test + "$", "-test.count=1", "-test.timeout=0"], env=env, timeout=timeout, cwd=R.work)
+    rc, o = vlib.sh([hexe, "-test.run", "^" + test + "$", "-test.count=1", "-test.timeout=0"], env=env, timeout=timeout, cwd=rundir(R))
     return rc, o
 
 
